@@ -65,7 +65,7 @@ class Pair:
         return dict(zip(idx, out))
 
 
-def inputs(rep, prop, tier, seed, n_quick, n_thorough, replay=None, key="expr", **kw):
+def inputs(rep, prop, tier, seed, n_quick, n_thorough, replay=None, key="expr", scale=True, **kw):
     """corpus first (finding witnesses, minimised past failures), then generated expressions"""
     if replay is not None:
         return [replay["input"][key]] if key in replay.get("input", {}) else []
@@ -80,6 +80,8 @@ def inputs(rep, prop, tier, seed, n_quick, n_thorough, replay=None, key="expr", 
     n = n_quick if tier == "quick" else n_thorough
     for e in gen.expressions(seed, n, **kw):
         out.append(e)
+    if scale:
+        out += gen.scale_family()
     seen = set()
     res = []
     for e in out:
